@@ -148,7 +148,7 @@ struct Ex {
 
   const VarDecl *localHandleVar(const Expr *E) {
     if (auto *DR = dyn_cast_or_null<DeclRefExpr>(strip(E)))
-      if (auto *VD = dyn_cast<VarDecl>(DR->getDecl())) if (VD->isLocalVarDeclOrParm() && (isNodeHandleType(VD->getType()) || VD->getType()->isBooleanType())) return VD;
+      if (auto *VD = dyn_cast<VarDecl>(DR->getDecl())) if (VD->isLocalVarDeclOrParm() && (isNodeHandleType(VD->getType()) || VD->getType()->isBooleanType() || VD->getType()->isEnumeralType())) return VD;
     return nullptr;
   }
 
@@ -235,6 +235,16 @@ struct Ex {
         o["line"] = lineOf(SM, BO->getBeginLoc());
         return true;
       }
+      if (BO->getOpcode() == BO_Assign) if (auto *AS = dyn_cast<ArraySubscriptExpr>(strip(BO->getLHS())))
+        if (auto *DR = dyn_cast<DeclRefExpr>(strip(AS->getBase()))) if (auto *VD = dyn_cast<VarDecl>(DR->getDecl())) if (VD->isLocalVarDeclOrParm()) {
+          // element store into a local array / pointer: index expression kept for traversal-order comparisons
+          o["k"] = "astore";
+          o["var"] = VD->getNameAsString();
+          o["index"] = exprText(Ctx, AS->getIdx());
+          o["rhs"] = exprText(Ctx, BO->getRHS());
+          o["line"] = lineOf(SM, BO->getBeginLoc());
+          return true;
+        }
       if (BO->isAssignmentOp()) if (const VarDecl *VD = localHandleVar(BO->getLHS())) {
         o["k"] = "ldef";
         o["var"] = VD->getNameAsString();
@@ -317,6 +327,10 @@ struct Ex {
       }
       if (const Stmt *T = B->getTerminatorStmt()) {
         b["term"] = T->getStmtClassName();
+        if (auto *FS = dyn_cast<ForStmt>(T)) {
+          b["forinit"] = FS->getInit() ? exprText(Ctx, FS->getInit()) : std::string("");
+          b["forinc"] = FS->getInc() ? exprText(Ctx, FS->getInc()) : std::string("");
+        }
         b["tline"] = lineOf(SM, T->getBeginLoc());
         if (const Expr *C = effectiveCond(B)) {
           Object c;
